@@ -39,6 +39,16 @@ type Stream struct {
 	proto   byte
 	profile uint16
 	hdrCRC  bool // store a real header CRC (14-byte header); else 0
+	toks    []tok
+}
+
+// tok is one record as the builder was asked to write it.
+type tok struct {
+	kind    byte // 'd' definition, 'D' data, 'C' compressed data, 'R' raw
+	l       int
+	off     int
+	def     *sdef // definition written (kind 'd') or in force (data)
+	payload []byte
 }
 
 type sdef struct {
@@ -77,6 +87,7 @@ func (s *Stream) Def(l int, arch byte, global uint16, fields []FieldDef, dev []D
 		}
 	}
 	s.defs[l&0x0F] = &sdef{arch, global, fields, dev}
+	s.toks = append(s.toks, tok{kind: 'd', l: l & 0x0F, def: s.defs[l&0x0F]})
 	s.endRecord()
 }
 
@@ -85,6 +96,7 @@ func (s *Stream) Def(l int, arch byte, global uint16, fields []FieldDef, dev []D
 func (s *Stream) Data(l int, payload []byte) {
 	s.body = append(s.body, byte(l&0x0F))
 	s.body = append(s.body, payload...)
+	s.toks = append(s.toks, tok{kind: 'D', l: l & 0x0F, def: s.defs[l&0x0F], payload: payload})
 	s.endRecord()
 }
 
@@ -92,6 +104,7 @@ func (s *Stream) Data(l int, payload []byte) {
 func (s *Stream) Compressed(l int, off int, payload []byte) {
 	s.body = append(s.body, byte(0x80|((l&3)<<5)|(off&0x1F)))
 	s.body = append(s.body, payload...)
+	s.toks = append(s.toks, tok{kind: 'C', l: l & 3, off: off & 0x1F, def: s.defs[l&3], payload: payload})
 	s.endRecord()
 }
 
@@ -173,4 +186,28 @@ func randomValue(rng *rand.Rand, w int) []byte {
 		rng.Read(b)
 	}
 	return b
+}
+
+// Control returns the same records with every data record preceded by its
+// own definition on local type 0: no record depends on slot memory.
+func (s *Stream) Control() *Stream {
+	c := newStream(s.hdrSize, s.hdrCRC)
+	c.proto, c.profile = s.proto, s.profile
+	for _, t := range s.toks {
+		switch t.kind {
+		case 'D':
+			if t.def == nil {
+				return nil
+			}
+			c.Def(0, t.def.arch, t.def.global, t.def.fields, t.def.dev)
+			c.Data(0, t.payload)
+		case 'C':
+			if t.def == nil {
+				return nil
+			}
+			c.Def(0, t.def.arch, t.def.global, t.def.fields, t.def.dev)
+			c.Compressed(0, t.off, t.payload)
+		}
+	}
+	return c
 }
